@@ -90,8 +90,17 @@ func genC04Stmt(r *Rng, idx int, mysql bool) c04stmt {
 				}
 				return "@" + nm
 			case 1:
+				if r.Chance(15) {
+					// the same call, spelled with white space / quotes the database accepts
+					st.tags = append(st.tags, "odd-spelling")
+					return r.Pick([]string{"sqlc.arg( " + nm + " )", "sqlc.arg(\n  " + nm + "\n)", "sqlc.arg(\"" + nm + "\")", "sqlc.arg (" + nm + ")"})
+				}
 				return "sqlc.arg(" + nm + ")"
 			default:
+				if r.Chance(15) {
+					st.tags = append(st.tags, "odd-spelling")
+					return r.Pick([]string{"sqlc.arg( '" + nm + "' )", "sqlc.arg('" + nm + "' )", "sqlc.arg(\n'" + nm + "')"})
+				}
 				return "sqlc.arg('" + nm + "')"
 			}
 		}
@@ -332,10 +341,18 @@ func runC04(r *Rng, n int, tier string) {
 				tags = append(tags, st.tags...)
 			}
 		} else {
-			impl["err"] = strings.ReplaceAll(strings.TrimSpace(res.Stderr+res.Err+res.Panic), "\n", " | ")
+			impl["err"] = strings.ReplaceAll(strings.TrimSpace(res.Stderr+res.Err+res.Panic), "\n", " // ")
 		}
 		impl["stmts"] = stj
-		emit(Case{ID: fmt.Sprintf("e2e-%d", i), Kind: "e2e", In: J{"engine": engine, "files": files}, Impl: impl, Tags: append(tags, engine)})
+		var known []string
+		for _, st := range sts {
+			for _, t := range st.tags {
+				if t == "odd-spelling" {
+					known = []string{"namedArgSpelling"}
+				}
+			}
+		}
+		emit(Case{ID: fmt.Sprintf("e2e-%d", i), Kind: "e2e", In: J{"engine": engine, "files": files}, Impl: impl, Tags: append(tags, engine), Known: known})
 	}
 	// known finding: literal continuation line that looks like a comment
 	{
